@@ -91,7 +91,7 @@ Lemma allowed_upd_param s b typ p :
   known_strat s = true -> wf_oanno (panno p) -> wf_oty typ ->
   allowed s b (panno p) typ (panno (upd_param s b typ p)) = true.
 Proof.
-  intros K Wp Wt. rewrite upd_param_anno. unfold allowed, annotated.
+  intros K Wp Wt. rewrite upd_param_anno. unfold allowed, allowed_b, annotated.
   assert (Rp := oanno_corrb_refl _ Wp).
   assert (Rt : oanno_corrb (option_map ATy typ) (option_map ATy typ) = true).
   { destruct typ; cbn; [apply corrb_refl; exact Wt|reflexivity]. }
@@ -111,7 +111,7 @@ Lemma spec_params_upd s hs args : known_strat s = true -> Forall (fun e => wf_ty
   spec_params s hs args idx ps (upd_params s hs args idx ps) = true.
 Proof.
   intros K Wa. induction ps as [|p r IH]; intros idx W; [reflexivity|].
-  inversion W as [|? ? Wp Wr]; subst. cbn [upd_params spec_params].
+  inversion W as [|? ? Wp Wr]; subst. unfold spec_params in *. cbn [upd_params spec_params_with].
   rewrite upd_param_name, upd_param_kind, upd_param_def, String.eqb_refl.
   rewrite (allowed_upd_param s _ _ p K Wp (wf_lookup _ _ Wa)), (IH _ Wr).
   destruct (pk p), (pdef p); reflexivity.
@@ -123,7 +123,7 @@ Lemma allowed_upd_return s src rt yt :
 Proof.
   intros K Ws Wr Wy. pose proof (wf_traced_return rt yt Wr Wy) as Wt.
   assert (Rs := oanno_corrb_refl _ Ws).
-  unfold allowed, upd_return, known_strat in *.
+  unfold allowed, allowed_b, upd_return, known_strat in *.
   destruct (traced_return rt yt) as [t|]; cbn in Wt.
   - assert (Rt : oanno_corrb (Some (ATy t)) (Some (ATy t)) = true) by (cbn; apply corrb_refl; exact Wt).
     destruct (is_strat "REPLICATE" s) eqn:ER.
@@ -145,8 +145,8 @@ Lemma update_meets_spec s kind sg tr :
   known_strat s = true -> wf_sig sg -> wf_traced tr ->
   spec_sig s kind sg tr (update_sig s kind sg tr) = true.
 Proof.
-  intros K [Wp Wr] [Wa [Wrt Wy]]. unfold spec_sig, update_sig. cbn [sparams sret].
-  rewrite (spec_params_upd s _ _ K Wa _ 0 Wp), (allowed_upd_return s _ _ _ K Wr Wrt Wy). reflexivity.
+  intros K [Wp Wr] [Wa [Wrt Wy]]. unfold spec_sig, spec_sig_with, update_sig. cbn [sparams sret].
+  fold (spec_params s). rewrite (spec_params_upd s _ _ K Wa _ 0 Wp), (allowed_upd_return s _ _ _ K Wr Wrt Wy). reflexivity.
 Qed.
 
 (* ---------- which positions are traced ---------- *)
